@@ -306,6 +306,9 @@ func gcLocks(t *testing.T, backend sim.Backend) {
 		case <-time.After(90 * time.Second):
 			t.Fatalf("VERIF-INFRA: case did not finish within 90 s\n  case: %s\n  log:\n    %s\n  goroutines:\n%s", desc, strings.Join(w.Log, "\n    "), sim.GoroutineDump())
 		}
+		if r := cl.Runaway(); r != "" {
+			t.Fatalf("VERIF-INFRA: a call did not terminate (judged by C02 / C05): %s\n  case: %s", r, desc)
+		}
 		if infra != "" {
 			t.Fatalf("VERIF-INFRA: %s\n  case: %s", infra, desc)
 		}
